@@ -122,10 +122,16 @@ Definition rd_spline {X} (rd : list Z -> X * list Z) (l : list Z) : outcome (jsp
   | _ => Panic
   end.
 
+(* construct, `update` with the trailing quotes (if any), then switch to the requested order *)
 Definition rd_fxobj (l : list Z) : outcome (jfx float) :=
   let '((qs, base), r) := rd_market l in
   do f <- build_market qs base;
-  do g <- fx_set_ad_order f (order_of_Z (hd 1 r));
+  let '(upd, _) := rd_quotes (tl r) in
+  do f1 <- match upd with
+           | [] => Ok f
+           | _ => do u <- build_quotes upd; fx_update f u
+           end;
+  do g <- fx_set_ad_order f1 (order_of_Z (hd 1 r));
   Ok (jfx_of g).
 
 Definition rd_obj (l : list Z) : outcome (obj float) :=
